@@ -52,6 +52,10 @@ pub const BOUNDARY_NUMBERS: &[&str] = &[
     "18446744073709551616",
     "123456789012345678901234567890",
     "007",
+    "\u{b2}",
+    "1\u{bd}",
+    "\u{2460}7",
+    "\u{663}",
 ];
 
 pub const SPLICE_LINES: &[&str] = &[
@@ -192,6 +196,15 @@ pub fn token_soup(rng: &mut Rng, max_tokens: usize) -> Vec<u8> {
         b"}",
         b"\t",
         b"\xEF\xBB\xBF",
+        "\u{b2}".as_bytes(),
+        "1\u{bd}".as_bytes(),
+        "\u{2460}".as_bytes(),
+        "\u{663}".as_bytes(),
+        "    \u{b2}:3:void m() -> a".as_bytes(),
+        "    1\u{bd}:3:void m() -> a".as_bytes(),
+        "    1:\u{663}3:void m() -> a".as_bytes(),
+        "    void m():\u{2460} -> a".as_bytes(),
+        "    1:2:void m():3:\u{b2} -> a".as_bytes(),
         b"\xb2",
         b"\xb9\xbc",
         b"\xff",
